@@ -12,7 +12,7 @@ grp = [g for g in chk.CHECKS[prop]['groups'] if entry in g['entries']][0]
 d = tempfile.mkdtemp(prefix='verif_dev.')
 try:
     chk.make_overlay(grp['pkg'], d, grp.get('with', []))
-    cmd = [chk.GOSX, '-dir', chk.TS, '-pkg', grp['pkg'], '-overlay', d, '-entry', entry, '-out', d + '/out.json'] + list(grp.get('flags', [])) + extra
+    cmd = [chk.GOSX, '-dir', chk.TS, '-pkg', grp['pkg'], '-overlay', chk.SYM_ROOT.get(d, d), '-entry', entry, '-out', d + '/out.json'] + list(grp.get('flags', [])) + extra
     print(' '.join(cmd))
     env = dict(chk.ENV, GOSX_DEBUG='1', GOSX_PROGRESS='1')
     try:
@@ -20,5 +20,5 @@ try:
     except subprocess.TimeoutExpired:
         print('DEV TIMEOUT')
 finally:
-    shutil.rmtree(d, ignore_errors=True)
+    shutil.rmtree(d, ignore_errors=True); shutil.rmtree(d+'_sym', ignore_errors=True)
 PY
